@@ -806,10 +806,25 @@ class RGraph:
             for iid in rbuild.rcommits.keys()
         }
 
+        # RCommit's reachable from the head of this branch. Some of them may be
+        # reported in builds of previous branches only (f.e. if the head of this
+        # branch belongs to the history of a previous branch) - these commits
+        # are merged into this branch.
+        reachable_in_this_branch = set()
+        rc_stack = list(result_accumdata.rc_parents)
+        while rc_stack:
+            rc = rc_stack.pop()
+            if rc.iid in reachable_in_this_branch:
+                continue
+            reachable_in_this_branch.add(rc.iid)
+            rc_stack.extend(rc.parents)
+
         not_merged_rcommits = {
             iid: rcommit
             for iid, rcommit in all_commits_prev_branch.items()
-            if rcommit.is_explicit and iid not in all_commits_in_this_branch
+            if rcommit.is_explicit
+            and iid not in all_commits_in_this_branch
+            and iid not in reachable_in_this_branch
         }
 
         # Get info about latest build in current branch - it will be a parent build
